@@ -358,6 +358,20 @@ def run_choice(ops):
                     pass
                 else:
                     return rec('reading unknown alternative succeeds', history=hist, container='Choice')
+            elif k == 'index' and model and name != model[0]:
+                # a read of an alternative that is not the selected one: a lookup error or a placeholder, but the
+                # selection (and with it the value) stays
+                try:
+                    obj[name]
+                except LOOKUP + (error.PyAsn1Error,):
+                    pass
+                try:
+                    still = obj.getName() == model[0] and bool(obj.isValue)
+                except error.PyAsn1Error:
+                    still = False
+                if not still:
+                    return rec('reading alternative %s while %s is selected changed the selection' % (name, model[0]),
+                               history=hist, container='Choice', op='read-other')
         except error.PyAsn1Error as e:
             return rec('well-formed operation raised PyAsn1Error: %s' % str(e)[:100], history=hist, container='Choice', op=k)
         except Exception as e:
